@@ -439,7 +439,17 @@ func TestReplayGraph(t *testing.T) {
 			ok := w.step(ei)
 			// a failed save of one secret, then at once a successful save of ANOTHER one: what the failed call left in
 			// memory must not ride along (the file is compared after the second call)
-			if e := g.Edges[ei]; ok && afterFault && e.Op.Fault == "save" && e.F == e.T {
+			if e := g.Edges[ei]; ok && afterFault && e.Op.Fault == "save" && e.F == e.T && w.steps%2 == 0 {
+				// ... or the very same call again (what a client does after an error): it must really happen this time
+				for _, xi := range g.out[w.cur] {
+					x := g.Edges[xi]
+					if x.Req == nil && (x.Op.Fault == "none" || x.Op.Fault == "") && x.Op.Op == e.Op.Op && x.Op.Name == e.Op.Name && x.Op.Val == e.Op.Val && x.Op.Ver == e.Op.Ver {
+						w.res.Add("retry_right_after_failed_save", 1)
+						w.step(xi)
+						break
+					}
+				}
+			} else if ok && afterFault && e.Op.Fault == "save" && e.F == e.T {
 				for _, xi := range g.out[w.cur] {
 					x := g.Edges[xi]
 					if x.Req == nil && (x.Op.Fault == "none" || x.Op.Fault == "") && x.Op.Saved && x.Op.Name != e.Op.Name && x.F != x.T {
